@@ -18,7 +18,8 @@ LEVEL_TEXT = ("Lean 4 theorem C06_program: for EVERY straight-line program over 
               "programs run on real objects, on the compiled model and on a CPython reference interpreter.")
 LEVEL_NOTE = ("Trusted: Lean kernel (+ standard axioms), kernel translator, N layer; the heap model's allocation discipline (which "
               "operations share a buffer) is hand-modelled and tied by correspondence -- a re-introduced lazy view shows up as a trace "
-              "difference after a write to the source. where and float data are exercised under C07/C08 only.")
+              "difference after a write to the source. where is exercised under C07/C08 only; float data enters through one probe: at every read the array and a freshly built "
+              "equal one must answer a ufunc with a float column vector (inf, mixed magnitudes) alike (implementation against itself).")
 TECHNIQUE = "Lean 4 simulation proof (induction over the program) heap model vs store of rows; program-level correspondence"
 DESIGN_REF = "7"
 LEAN_MODULES = ["NpsVerif.Props.C06"]
